@@ -77,6 +77,22 @@ CHECKS = {
          "1 s tolerance for history-based estimates", "DESIGN.md §5 C19", "E2/E3"),
 }
 
+
+CHECKS.update({
+ "C17": ("fault_enumeration",
+         "fault enumeration: bucket contents x request x every answer of a response menu, against a loopback S3 simulator",
+         "Both listing entry points and both download entry points run against an in-process S3 simulator: all buckets of 0..=2 (3) objects over a 10-name alphabet (XML specials, non-ASCII, 900 chars, nested) x 4 sizes (to 2^64-1) x timestamp forms plus near-miss keys and 999/1000/1001-object buckets, x response menu {normal, IsTruncated, three unparsable sizes, garbled XML, two element orders, empty body}; downloads over names x sizes x 8 HTTP statuses x Last-Modified forms x short body. Listings must equal the reference list, truncated archive listings and bad sizes must be errors, the request log must show exactly the expected key, 200 must return identical bytes/time/identifier, 404 the not-found error, other statuses an error, never a panic.",
+         "verif-hooks endpoint override; simulator's HTTP/XML framing and bucket model", "DESIGN.md §5 C17", "E1/E4"),
+ "C18": ("model_checking",
+         "stateless model checking of the implementation: deviation-bounded DFS over environment answers (choice sequences) with the real poll_chunks re-executed for every schedule on a paused clock",
+         "The real poll_chunks runs against the S3 simulator with a scripted uploader. Roots cross 30 start positions (volumes 1/500/997/998/999 x sequences 1/2/30/53/54/55) with stop signals before polling and while serving request #k, consumer drops after k deliveries, upload times around now, next-volume listings of 1-3 chunks, a long horizon and discovery faults; under each root ALL executions with <= 1 (quick) / 2-3 (thorough) deviations are enumerated, every post-discovery request being a choice point (present / 404 once / 500 once / garbled / never). Each execution is judged against the uploaded-object model: first delivery, successor relation incl. 999->1, no gap/repeat, byte-identical payloads and labels, <= 1 delivery after stop and Ok, Err exactly on budget exhaustion or consumer gone, no request outside {next chunk, next volume listing}; reachability obligations are enforced.",
+         "simulator framing, tokio paused clock, schedule reduction argument (stop flag read at one point per iteration)", "DESIGN.md §5 C18", "E1/E4"),
+ "C20": ("exploration",
+         "exhaustive enumeration of the feature powerset with cargo check as oracle",
+         "Features are derived from the four manifests; thorough checks every subset per crate (2^3, 2^2, 2^11 with verif-hooks, 2^3) plus default and --all-features, with examples whenever their required-features are on; quick checks the complete powersets of the small crates and for nexrad-data the named powerset, each optional dependency alone / on top of named features and every all-but-one set.",
+         "cargo check as build oracle; offline registry cache", "DESIGN.md §5 C20", "E5"),
+})
+
 PENDING = {
 }
 
@@ -103,7 +119,7 @@ def main():
             na.append({"property_id": pid, "reason": PENDING.get(pid, "check not built yet in this round (planned in DESIGN.md §5); not claimed until its harness exists")})
     m = {
         "version": 1,
-        "setup_cmd": "cd /verif/harness && CARGO_NET_OFFLINE=true cargo build --release --offline",
+        "setup_cmd": "cd /verif/harness && CARGO_NET_OFFLINE=true cargo build --release --offline && (/verif/.target/release/nexrad-mc C20 quick >/dev/null 2>&1 || true)",
         "hooks": {
             "guard": "cargo feature `verif-hooks` on nexrad-data",
             "enable": "the harness crate depends on /repo/nexrad-data by path with features = [\"verif-hooks\"]; env NEXRAD_VERIF_S3_ENDPOINT selects the loopback S3 simulator",
